@@ -243,13 +243,24 @@ const durMax = 100 * 8760 * 36000 // 100 "years" of 8760 h, in tenths
 type c20Time struct {
 	r        *Run
 	caseLeft map[string]int // model-case budget per op (direct tests are unbudgeted)
-	ops      []string       // every op line executed (for the extracted-model comparison)
-	obs      []string
+	// every op line executed, with the implementation's observation, for the
+	// extracted-model comparison (c20_extract.go).  strict = the input lies in
+	// the property's quantifier (or is pinned by the repository's own tests):
+	// only those are compared as model cases, so that a correct change of what
+	// happens OUTSIDE the property (stricter validation of malformed strings,
+	// another rendering of unrepresentable years ...) raises no alarm.
+	ops    []string
+	obs    []string
+	strict []bool
 }
 
-func (c *c20Time) emit(line, obs string, force bool) {
+func (c *c20Time) emit(line, obs string, strict, force bool) {
 	c.ops = append(c.ops, line)
 	c.obs = append(c.obs, obs)
+	c.strict = append(c.strict, strict)
+	if !strict {
+		return
+	}
 	op := strings.Fields(line)[0]
 	if !force {
 		if c.caseLeft[op] <= 0 {
@@ -260,12 +271,19 @@ func (c *c20Time) emit(line, obs string, force bool) {
 	c.r.Case(line+" -> "+obs, c20Term(line, obs))
 }
 
+// inputs outside the property that TestTime / TestDuration of the repository pin
+func pinnedByRepoTests(s string) bool { return s == "" || s == "000101000000000" }
+
 func (c *c20Time) timeParse(s, bucket string, force bool) {
 	r := c.r
 	line := "timeparse " + hexStr(s)
 	o := opTimeParse(s)
 	valid, wt, wq := validAbs(s)
-	r.Count(line, s != "", "timeparse/"+bucket+"/"+o.class)
+	vb := "not-valid"
+	if valid {
+		vb = "valid"
+	}
+	r.Count(line, s != "", "timeparse/"+bucket+"/"+vb+"/"+o.class)
 	obs := o.class
 	if o.class == "ok" {
 		obs = fmt.Sprintf("ok %d %d", o.t, o.q)
@@ -294,9 +312,9 @@ func (c *c20Time) timeParse(s, bucket string, force bool) {
 			}
 		}
 	}
-	c.emit(line, obs, force)
-	if o.class == "ok" && o.exact {
-		// the model's formatter on whatever value came out (also outside the property's domain)
+	c.emit(line, obs, valid || pinnedByRepoTests(s), force)
+	if o.class == "ok" && o.exact && s != "" {
+		// the formatter on whatever value came out
 		c.timeFmt(o.t, o.q, bucket+"/reformat", force)
 	}
 }
@@ -323,7 +341,7 @@ func (c *c20Time) timeFmt(t int64, q int, bucket string, force bool) {
 				show, fmt.Sprintf("string=%q parsed=%s instant=%d offset=%d", s, o.class, o.t, o.q), fmt.Sprintf("instant=%d offset=%d", t, q))
 		}
 	}
-	c.emit(line, "ok "+hexStr(s), force)
+	c.emit(line, "ok "+hexStr(s), dom, force)
 }
 
 func (c *c20Time) durFmt(d int64, bucket string, force bool) {
@@ -347,14 +365,18 @@ func (c *c20Time) durFmt(d int64, bucket string, force bool) {
 				show, fmt.Sprintf("string=%q parsed=%s %d", s, cl, back), fmt.Sprintf("%d", d))
 		}
 	}
-	c.emit(line, "ok "+hexStr(s), force)
+	c.emit(line, "ok "+hexStr(s), dom || d == 0, force)
 }
 
 func (c *c20Time) durParse(s, bucket string, force bool) {
 	r := c.r
 	line := "durparse " + hexStr(s)
 	cl, d, exact := opDurParse(s)
-	r.Count(line, s != "", "durparse/"+bucket+"/"+cl)
+	vb := "not-valid"
+	if validRel(s) {
+		vb = "valid"
+	}
+	r.Count(line, s != "", "durparse/"+bucket+"/"+vb+"/"+cl)
 	obs := cl
 	if cl == "ok" {
 		obs = fmt.Sprintf("ok %d", d)
@@ -371,7 +393,7 @@ func (c *c20Time) durParse(s, bucket string, force bool) {
 				show, fmt.Sprintf("%s %d", cl, d), fmt.Sprintf("ok %d", want))
 		}
 	}
-	c.emit(line, obs, force)
+	c.emit(line, obs, validRel(s) || pinnedByRepoTests(s), force)
 }
 
 // ---------------------------------------------------------------- generators
@@ -409,10 +431,10 @@ func corrC20Time(r *Run) *c20Time {
 	rng := r.Rng
 	// model-case budgets (each op line is ALSO a direct test; thorough runs every line through the model)
 	big := 1 << 30
-	c.caseLeft["timeparse"] = r.N(4200, big)
-	c.caseLeft["timefmt"] = r.N(5200, big)
-	c.caseLeft["durfmt"] = r.N(2600, big)
-	c.caseLeft["durparse"] = r.N(1200, big)
+	c.caseLeft["timeparse"] = r.N(22000, big)
+	c.caseLeft["timefmt"] = r.N(25000, big)
+	c.caseLeft["durfmt"] = r.N(4000, big)
+	c.caseLeft["durparse"] = r.N(1500, big)
 
 	// ---- 0. corpus: the repository's own vectors and the known finding first
 	for _, s := range []string{"", "000101000000000+", "111019080000704-", "201020182347832+", "991231235959948+",
